@@ -42,6 +42,7 @@ import (
 	"net/netip"
 	"os"
 	"path/filepath"
+	"runtime"
 	"sort"
 	"strconv"
 	"strings"
@@ -270,12 +271,8 @@ func (c *zzG02Conc) name(ls []string) (s string) {
 		if err != nil {
 			return ls[0] + ".invalid"
 		}
-		r, err := dns.ReverseAddr(a.String())
-		if err != nil {
-			return ls[0] + ".invalid"
-		}
 
-		return strings.TrimSuffix(r, ".")
+		return zzG02Reverse(a)
 	}
 
 	parts := make([]string, len(ls))
@@ -288,6 +285,25 @@ func (c *zzG02Conc) name(ls []string) (s string) {
 	}
 
 	return strings.Join(parts, ".")
+}
+
+// zzG02Reverse is the reverse-lookup name of an address: in-addr.arpa for an
+// IPv4 address, ip6.arpa for an IPv6 address (an IPv4-mapped one included).
+func zzG02Reverse(a netip.Addr) (s string) {
+	if a.Is4() {
+		b := a.As4()
+
+		return fmt.Sprintf("%d.%d.%d.%d.in-addr.arpa", b[3], b[2], b[1], b[0])
+	}
+
+	const hex = "0123456789abcdef"
+	b := a.As16()
+	parts := make([]string, 0, 34)
+	for i := 15; i >= 0; i-- {
+		parts = append(parts, string(hex[b[i]&0xf]), string(hex[b[i]>>4]))
+	}
+
+	return strings.Join(parts, ".") + ".ip6.arpa"
 }
 
 func (c *zzG02Conc) absName(s string) (ls []string) {
@@ -713,7 +729,7 @@ func zzG02NewFilter(t testing.TB, conc *zzG02Conc, cfg *zzG02Cfg, salt string, s
 		return nil, fmt.Errorf("filtering.New: %w", err)
 	}
 
-	z.f.SetEnabled(cfg.Filt)
+	// EnableFilters also puts Config.FilteringEnabled in force.
 	z.f.Start()
 	z.f.EnableFilters(false)
 	z.cur, z.curText = *cfg, text
@@ -855,7 +871,11 @@ func (z *zzG02Filter) apply(cfg *zzG02Cfg, salt string) (err error) {
 		z.stats["live_prot"]++
 	}
 	if z.cur.Filt != cfg.Filt {
-		z.f.SetEnabled(cfg.Filt)
+		// filtering_enabled: POST /control/filtering/config (the flag is in
+		// force when the handler returns; interval 0 = no periodic refresh).
+		if err = z.call("POST /control/filtering/config", map[string]any{"enabled": cfg.Filt, "interval": 0}); err != nil {
+			return err
+		}
 		z.stats["live_filt"]++
 	}
 
@@ -901,6 +921,8 @@ type zzG02Bad struct {
 	// (computed by the spec, DnsRewriteCore!SkipOutcomes).
 	KF  bool   `json:"kf"`
 	Via string `json:"via"`
+	// Salt selects the spelling of the configuration.
+	Salt string `json:"salt"`
 	// Prev and Step describe the rehearsed reconfiguration.
 	Prev *zzG02Cfg `json:"prev,omitempty"`
 	Note string    `json:"note,omitempty"`
@@ -921,7 +943,7 @@ func (z *zzG02Filter) checkAll(v *zzG02Vec, salt string) (bad []zzG02Bad, n int,
 			n++
 			if !zzG02In(&got, g.O) {
 				bad = append(bad, zzG02Bad{Kind: "cand", ID: v.ID, Fam: v.Fam, Cfg: v.Cfg, Text: z.curText, Q: *rq,
-					Got: got, Want: g.O, KF: zzG02In(&got, g.Kf)})
+					Got: got, Want: g.O, KF: zzG02In(&got, g.Kf), Salt: salt})
 			}
 		}
 	}
@@ -929,53 +951,65 @@ func (z *zzG02Filter) checkAll(v *zzG02Vec, salt string) (bad []zzG02Bad, n int,
 	return bad, n, nil
 }
 
-// confirm reproduces a candidate: twice on a fresh filter built from the
-// configuration with the same spelling; failing that, by rehearsing the last
-// reconfiguration.
-func zzG02Confirm(t testing.TB, conc *zzG02Conc, b *zzG02Bad, g []zzG02Out, prev *zzG02Cfg, prevSalt, salt string, stats map[string]int) (kind string) {
-	same := 0
+// zzG02Confirm reproduces the candidates of one configuration: twice on a
+// fresh filter built from the configuration with the same spelling; what does
+// not show there, by rehearsing the last reconfiguration (fresh filter with
+// the previous configuration, the same step).  It sets Kind of every candidate
+// to "bad" (reproduced both times) or "flaky".
+func zzG02Confirm(t testing.TB, conc *zzG02Conc, cands []zzG02Bad, prev *zzG02Cfg, prevSalt, salt string, stats map[string]int) {
+	if len(cands) == 0 {
+		return
+	}
+
+	same := make([]int, len(cands))
 	for i := 0; i < 2; i++ {
-		z, err := zzG02NewFilter(t, conc, &b.Cfg, salt, stats)
+		z, err := zzG02NewFilter(t, conc, &cands[0].Cfg, salt, stats)
 		if err != nil {
-			return "flaky"
+			break
 		}
-		got, _ := z.ask(&b.Q, uint32(i))
-		z.close()
-		if !zzG02In(&got, g) {
-			same++
-		}
-	}
-	if same == 2 {
-		b.Via = "fresh"
-
-		return "bad"
-	}
-
-	if prev != nil {
-		same = 0
-		for i := 0; i < 2; i++ {
-			z, err := zzG02NewFilter(t, conc, prev, prevSalt, stats)
-			if err != nil {
-				return "flaky"
+		for ci := range cands {
+			got, _ := z.ask(&cands[ci].Q, uint32(i))
+			if !zzG02In(&got, cands[ci].Want) {
+				same[ci]++
 			}
-			if z.compatible(&b.Cfg) {
-				if err = z.apply(&b.Cfg, salt); err == nil {
-					got, _ := z.ask(&b.Q, uint32(i))
-					if !zzG02In(&got, g) {
-						same++
-					}
+		}
+		z.close()
+	}
+
+	rest := []int{}
+	for ci := range cands {
+		if same[ci] == 2 {
+			cands[ci].Kind, cands[ci].Via = "bad", "fresh"
+		} else {
+			cands[ci].Kind = "flaky"
+			rest = append(rest, ci)
+		}
+	}
+	if prev == nil || len(rest) == 0 {
+		return
+	}
+
+	same = make([]int, len(cands))
+	for i := 0; i < 2; i++ {
+		z, err := zzG02NewFilter(t, conc, prev, prevSalt, stats)
+		if err != nil {
+			break
+		}
+		if z.compatible(&cands[0].Cfg) && z.apply(&cands[0].Cfg, salt) == nil {
+			for _, ci := range rest {
+				got, _ := z.ask(&cands[ci].Q, uint32(i))
+				if !zzG02In(&got, cands[ci].Want) {
+					same[ci]++
 				}
 			}
-			z.close()
 		}
-		if same == 2 {
-			b.Via, b.Prev = "history", prev
-
-			return "bad"
+		z.close()
+	}
+	for _, ci := range rest {
+		if same[ci] == 2 {
+			cands[ci].Kind, cands[ci].Via, cands[ci].Prev = "bad", "history", prev
 		}
 	}
-
-	return "flaky"
 }
 
 func zzG02ReadVectors(t *testing.T) (vs []*zzG02Vec) {
@@ -1000,6 +1034,7 @@ func TestZZVerifG02Replay(t *testing.T) {
 	conc := zzG02NewConc(seed)
 	rng := rand.New(rand.NewSource(seed))
 	stats := map[string]int{}
+	start := time.Now()
 
 	// A seeded order inside blocks of one family keeps reconfigurations
 	// small and frequent; the blocks themselves are shuffled too.
@@ -1015,6 +1050,8 @@ func TestZZVerifG02Replay(t *testing.T) {
 
 	maxAge := 20 + rng.Intn(40)
 	nbad, nflaky, ncfg := 0, 0, 0
+	// at most 60 records per (family, known-finding?) class are written out
+	written := map[string]int{}
 	var prev *zzG02Cfg
 	prevSalt := ""
 	for _, v := range vs {
@@ -1041,23 +1078,27 @@ func TestZZVerifG02Replay(t *testing.T) {
 		}
 
 		ncfg++
+		if ncfg%1000 == 0 {
+			var ms runtime.MemStats
+			runtime.ReadMemStats(&ms)
+			t.Logf("progress: %d configurations, %d goroutines, heap %d MiB, %s", ncfg, runtime.NumGoroutine(), ms.HeapAlloc>>20, time.Since(start).Round(time.Second))
+		}
 		cands, _, err := z.checkAll(v, salt)
 		if err != nil {
 			t.Fatalf("asking: %v", err)
 		}
 
+		zzG02Confirm(t, conc, cands, prev, prevSalt, salt, stats)
 		for i := range cands {
 			b := &cands[i]
-			switch zzG02Confirm(t, conc, b, b.Want, prev, prevSalt, salt, stats) {
-			case "bad":
-				b.Kind = "bad"
+			if b.Kind == "bad" {
 				nbad++
-				if nbad <= 400 {
+				k := fmt.Sprintf("%s/%v", b.Fam, b.KF)
+				if written[k]++; written[k] <= 60 {
 					w.put(b)
 				}
-			default:
+			} else {
 				nflaky++
-				b.Kind = "flaky"
 				w.put(b)
 			}
 		}
@@ -1083,7 +1124,10 @@ func TestZZVerifG02Probe(t *testing.T) {
 		if err := json.Unmarshal(line, b); err != nil {
 			t.Fatalf("record: %v", err)
 		}
-		salt := fmt.Sprintf("replay/%d", b.ID)
+		salt := b.Salt
+		if salt == "" {
+			salt = fmt.Sprintf("replay/%d", b.ID)
+		}
 		z, err := zzG02NewFilter(t, conc, &b.Cfg, salt, stats)
 		if err != nil {
 			t.Fatalf("filter: %v", err)
@@ -1216,18 +1260,16 @@ func TestZZVerifG02Hist(t *testing.T) {
 				t.Fatalf("asking: %v", cerr)
 			}
 			calls += n
+			zzG02Confirm(t, conc, cands, &prev, prevSalt, salt, stats)
 			for i := range cands {
 				b := &cands[i]
 				b.Note = "after " + e.act
-				switch zzG02Confirm(t, conc, b, b.Want, &prev, prevSalt, salt, stats) {
-				case "bad":
-					b.Kind = "bad"
+				if b.Kind == "bad" {
 					nbad++
 					if nbad <= 200 {
 						w.put(b)
 					}
-				default:
-					b.Kind = "flaky"
+				} else {
 					nflaky++
 					w.put(b)
 				}
@@ -1413,7 +1455,7 @@ func TestZZVerifG02Trace(t *testing.T) {
 			t.Fatalf("configuration %d: %v", i, err)
 		}
 
-		w.put(map[string]any{"k": "cfg", "cfg": cfg, "how": how, "text": z.curText})
+		w.put(map[string]any{"k": "cfg", "cfg": cfg, "how": how, "text": z.curText, "salt": salt})
 		for qi, rq := range zzG02BQueries(rng, &cfg, 14) {
 			got, _ := z.ask(&rq, conc.bits(fmt.Sprintf("%s/%d", salt, qi)))
 			w.put(map[string]any{"k": "q", "q": rq, "out": got})
